@@ -128,7 +128,7 @@ vh_free (void *p)
 #define MAXG 8
 #define MAXT 3000
 #define MAXR 3000
-#define MAXRHS 128
+#define MAXRHS 640
 #define MAXTEXT 8
 #define MAXH 4
 #define MAXTOK 600000
